@@ -43,6 +43,9 @@ RULES = {
     "add_new": with_probe({"l": LBL}),
     "add_existing": with_probe({"i": st.integers(0, 30)}),
     "add_removed": with_probe({"i": st.integers(0, 30)}),
+    # bulk entry point: new Taxon objects (possibly the same object twice), current members and removed ones mixed
+    "add_taxa": with_probe({"items": st.lists(st.tuples(st.sampled_from(["new", "same_new", "member", "removed"]), st.integers(0, 30)),
+                                              min_size=1, max_size=5)}),
     "new_taxon": with_probe({"l": LBL}),
     "new_taxa": with_probe({"ls": st.lists(LBL, max_size=3)}),
     "require": with_probe({"l": LBL, "cs": CS}),
@@ -151,6 +154,41 @@ class Interp(object):
                 self._joined(t)
             except Imm:
                 self.V(not ns.is_mutable, "unexpected_immutable_error")
+        elif op == "add_taxa":
+            fresh = []
+            seq = []
+            for kind, k in a["items"]:
+                if kind == "new" or (kind == "same_new" and not fresh):
+                    t = d.Taxon(label=POOL[k % len(POOL)])
+                    fresh.append(t)
+                    seq.append(t)
+                elif kind == "same_new":
+                    seq.append(fresh[k % len(fresh)])      # the same new object once more
+                elif kind == "member" and self.model:
+                    seq.append(self.model[k % len(self.model)][0])
+                elif kind == "removed":
+                    cand = [t for t in self.graveyard if all(t is not m[0] for m in self.model) and all(t is not x for x in seq)]
+                    if cand:
+                        seq.append(cand[k % len(cand)])
+            if not seq:
+                return
+            newcomers = []
+            for t in seq:
+                if all(t is not m[0] for m in self.model) and all(t is not x for x in newcomers):
+                    newcomers.append(t)
+            try:
+                ns.add_taxa(seq)
+                self.V(ns.is_mutable or not newcomers, "immutable_never_grows", "add_taxa succeeded on immutable namespace")
+                for t in newcomers:
+                    self._joined(t)
+                if len(newcomers) < len([t for t in seq if all(t is not m[0] for m in self.model[:len(self.model) - len(newcomers)])]):
+                    ctx.cls("add_taxa:same_new_object_repeated")
+            except Imm:
+                self.V(not ns.is_mutable, "unexpected_immutable_error")
+                # nothing may have joined before the refusal... the documented behaviour says nothing: adopt what is there
+                for t in newcomers:
+                    if any(t is x for x in ns):
+                        self._joined(t)
         elif op == "add_removed":
             # a Taxon object that was a member before joins again: it must get a bit of its own like any newcomer
             cand = [t for t in self.graveyard if all(t is not m[0] for m in self.model)]
